@@ -207,7 +207,10 @@ impl Acc {
     /// Run an oracle on an enumerated case; on failure record it.
     pub fn check<C: Serialize>(&mut self, case: &C, f: impl FnOnce(&mut Acc) -> R) -> bool {
         let sub_name = self.sub.clone();
-        let r = match crate::util::catch(|| f(self)) {
+        watch_enter(|| serde_json::to_value(case).unwrap_or(Value::Null));
+        let r = crate::util::catch(|| f(self));
+        watch_leave();
+        let r = match r {
             Ok(r) => r,
             Err(loc) => match classify_panic(&sub_name, &loc) {
                 Ok(fail) => Err(fail),
@@ -277,7 +280,10 @@ impl Acc {
                     acc.class("history:after-rejected-operations-on-this-thread");
                 }
             }
-            match guarded(&sub_name, &f, &case, acc) {
+            watch_enter(|| json!({"label": label, "input": serde_json::to_value(&case).unwrap_or(Value::Null)}));
+            let outcome = guarded(&sub_name, &f, &case, acc);
+            watch_leave();
+            match outcome {
                 Ok(()) => Ok(()),
                 Err(fail) => {
                     if let Some(what) = known.lookup(&fail.sig) {
@@ -336,6 +342,145 @@ impl Acc {
             }
         }
     }
+}
+
+// ---------------------------------------------------------------------------
+// Non-return supervision (properties whose statement is "every call returns Ok or Err").
+//
+// A time limit is never a verdict: a sub-check that exceeds its wall-clock budget is reported as
+// inconclusive (exit 2).  A case on which the code under test demonstrably does not return is
+// different, and is decided like this: the child process publishes the case it is executing; a
+// supervisor thread watches the CPU time of the executing thread.  When ONE case has consumed
+// `nonreturn_cpu_s()` seconds of CPU (legitimate cases of these sub-checks take microseconds to
+// milliseconds; the costliest budgeted KDF case well under a second), the same case is executed in
+// a fresh process (the control).  Only if the control too consumes that much CPU without returning
+// is the case reported (`<Cxx>/<sub>/does-not-return`); if the control returns, or anything is
+// unclear, the run is inconclusive.
+
+pub const NONRETURN_IS_VIOLATION: &[&str] = &["C04"];
+
+pub fn nonreturn_cpu_s() -> u64 {
+    std::env::var("PV_NONRETURN_CPU_S").ok().and_then(|s| s.parse().ok()).unwrap_or(60)
+}
+
+struct WatchCase {
+    seq: u64,
+    tid: u32,
+    json: String,
+}
+static WATCH_ON: AtomicBool = AtomicBool::new(false);
+static WATCH_SEQ: std::sync::atomic::AtomicU64 = std::sync::atomic::AtomicU64::new(0);
+static WATCH: std::sync::Mutex<Option<WatchCase>> = std::sync::Mutex::new(None);
+
+fn watch_enter(make: impl FnOnce() -> Value) {
+    if WATCH_ON.load(Ordering::Relaxed) {
+        let w = WatchCase { seq: WATCH_SEQ.fetch_add(1, Ordering::Relaxed), tid: crate::util::my_tid(), json: make().to_string() };
+        *WATCH.lock().unwrap() = Some(w);
+    }
+}
+fn watch_leave() {
+    if WATCH_ON.load(Ordering::Relaxed) {
+        *WATCH.lock().unwrap() = None;
+    }
+}
+
+pub enum Control {
+    Returned(f64),
+    Spins(f64),
+    Unclear(String),
+}
+
+/// Execute one saved case of a sub-check in a fresh process and watch its CPU time.
+pub fn run_case_control(prop: &str, sub: &str, case_json: &str) -> Control {
+    use std::io::Write;
+    let Ok(exe) = std::env::current_exe() else { return Control::Unclear("no executable".into()) };
+    let t0 = std::time::Instant::now();
+    let ch = std::process::Command::new(exe).args(["case-control", prop, sub]).env("PV_CHILD", "1").stdin(std::process::Stdio::piped()).stdout(std::process::Stdio::null()).stderr(std::process::Stdio::null()).spawn();
+    let Ok(mut ch) = ch else { return Control::Unclear("cannot spawn the control".into()) };
+    if let Some(mut si) = ch.stdin.take() {
+        let _ = si.write_all(case_json.as_bytes());
+    }
+    let limit_ns = nonreturn_cpu_s() * 1_000_000_000;
+    loop {
+        match ch.try_wait() {
+            Ok(Some(st)) => {
+                return if st.success() { Control::Returned(t0.elapsed().as_secs_f64()) } else { Control::Unclear(format!("the control ended with {st}")) };
+            }
+            Ok(None) => {
+                let cpu = crate::util::process_cpu(ch.id()).unwrap_or(0);
+                if cpu >= limit_ns {
+                    let _ = ch.kill();
+                    let _ = ch.wait();
+                    return Control::Spins(cpu as f64 / 1e9);
+                }
+                if t0.elapsed().as_secs() > 20 * nonreturn_cpu_s() {
+                    let _ = ch.kill();
+                    let _ = ch.wait();
+                    return Control::Unclear(format!("the control neither returned nor consumed {}s of CPU in {}s", nonreturn_cpu_s(), 20 * nonreturn_cpu_s()));
+                }
+                std::thread::sleep(std::time::Duration::from_millis(100));
+            }
+            Err(e) => return Control::Unclear(format!("{e}")),
+        }
+    }
+}
+
+/// Entry point of `pv case-control <prop> <sub>` (case JSON on stdin): run the case, return.
+pub fn case_control_main(def: PropertyDef, sub_name: &str, case_json: &str, verif_dir: &str) -> i32 {
+    let Ok(case) = serde_json::from_str::<Value>(case_json) else { return 2 };
+    let known = Arc::new(Known::load(&format!("{verif_dir}/known_findings.json")));
+    for sc in def.subs {
+        if sc.name == sub_name {
+            let mut acc = Acc::new(&sc.name, Tier::Quick, 0, known);
+            crate::rng::set_seeded(1);
+            let _ = std::panic::catch_unwind(std::panic::AssertUnwindSafe(|| (sc.replay)(&case, &mut acc)));
+            return 0;
+        }
+    }
+    2
+}
+
+fn spawn_nonreturn_supervisor(prop: &'static str, sub: String) {
+    WATCH_ON.store(true, Ordering::SeqCst);
+    std::thread::spawn(move || {
+        let limit_ns = nonreturn_cpu_s() * 1_000_000_000;
+        let mut tracked: Option<(u64, u64)> = None; // (seq, cpu at first sight)
+        loop {
+            std::thread::sleep(std::time::Duration::from_millis(500));
+            let cur = WATCH.lock().unwrap().as_ref().map(|w| (w.seq, w.tid));
+            let Some((seq, tid)) = cur else {
+                tracked = None;
+                continue;
+            };
+            let Some((cpu, _)) = crate::util::thread_cpu(tid) else { continue };
+            match tracked {
+                Some((s, c0)) if s == seq => {
+                    if cpu.saturating_sub(c0) >= limit_ns {
+                        let json = WATCH.lock().unwrap().as_ref().filter(|w| w.seq == seq).map(|w| w.json.clone());
+                        let Some(json) = json else { continue };
+                        let line = match run_case_control(prop, &sub, &json) {
+                            Control::Spins(c) => {
+                                let mut case: Value = serde_json::from_str(&json).unwrap_or(Value::Null);
+                                if let Some(o) = case.as_object_mut() {
+                                    o.insert("nonreturn".into(), Value::Bool(true));
+                                } else {
+                                    case = json!({"nonreturn": true, "case": case});
+                                }
+                                json!({"kind": "violation", "sig": format!("{prop}/{sub}/does-not-return"), "what": format!("one case has not returned after {}s of CPU time in the sub-check's process, and again not after {c:.0}s of CPU time when executed alone in a fresh process (other cases of this sub-check take micro- to milliseconds)", nonreturn_cpu_s()), "case": case})
+                            }
+                            Control::Returned(t) => json!({"kind": "unclear", "what": format!("{sub}: a case consumed {}s of CPU without returning, but returned after {t:.2}s when executed alone in a fresh process", nonreturn_cpu_s())}),
+                            Control::Unclear(w) => json!({"kind": "unclear", "what": format!("{sub}: a case consumed {}s of CPU without returning; control: {w}", nonreturn_cpu_s())}),
+                        };
+                        println!("NONRETURN {line}");
+                        use std::io::Write;
+                        let _ = std::io::stdout().flush();
+                        std::process::exit(0);
+                    }
+                }
+                _ => tracked = Some((seq, cpu)),
+            }
+        }
+    });
 }
 
 /// A panic while an oracle runs.  Harness code lives under /verif/harness: a panic located there
@@ -587,6 +732,17 @@ fn run_isolated(prop: &str, sub: &SubCheck, acc: &mut Acc) {
     let stdout = String::from_utf8_lossy(&out.stdout);
     let mut got = false;
     for line in stdout.lines() {
+        if let Some(j) = line.strip_prefix("NONRETURN ") {
+            if let Ok(v) = serde_json::from_str::<Value>(j) {
+                got = true;
+                let what = v.get("what").and_then(|x| x.as_str()).unwrap_or("").to_string();
+                if v.get("kind").and_then(|x| x.as_str()) == Some("violation") {
+                    acc.fail(Fail::new(v.get("sig").and_then(|x| x.as_str()).unwrap_or("?/does-not-return"), what), v.get("case").cloned().unwrap_or(Value::Null));
+                } else {
+                    acc.harness_errors.push(what);
+                }
+            }
+        }
         if let Some(j) = line.strip_prefix("ACC ") {
             if let Ok(w) = serde_json::from_str::<AccWire>(j) {
                 acc.absorb(w);
@@ -625,6 +781,9 @@ pub fn child_main(def: PropertyDef, sub_name: &str, tier: Tier, seed: u64, verif
         if sub.name == sub_name {
             let mut acc = Acc::new(&sub.name, tier, seed, known);
             crate::rng::set_seeded(mix(seed, fnv(sub.name.as_bytes())));
+            if NONRETURN_IS_VIOLATION.contains(&def.id) {
+                spawn_nonreturn_supervisor(def.id, sub.name.clone());
+            }
             let r = std::panic::catch_unwind(std::panic::AssertUnwindSafe(|| (sub.run)(&mut acc)));
             if let Err(p) = r {
                 let msg = crate::util::panic_message(&p);
@@ -862,6 +1021,25 @@ pub fn replay_file(defs: Vec<PropertyDef>, path: &str, verif_dir: &str) -> i32 {
                 }
                 println!("replay {path}: the sub-check ran to completion in a child process");
                 return 0;
+            }
+            if sc.name == sub && case.get("nonreturn").and_then(|x| x.as_bool()).unwrap_or(false) {
+                // the recorded failure is a case that does not return: execute it in a fresh process
+                return match run_case_control(d.id, &sc.name, &case.to_string()) {
+                    Control::Spins(c) => {
+                        println!("VIOLATION property={prop} replay={path}");
+                        println!("  signature: {prop}/{}/does-not-return", sc.name);
+                        println!("  what: the case has not returned after {c:.0}s of CPU time in a fresh process");
+                        1
+                    }
+                    Control::Returned(t) => {
+                        println!("replay {path}: the case returned after {t:.2}s in a fresh process");
+                        0
+                    }
+                    Control::Unclear(w) => {
+                        println!("INCONCLUSIVE {w}");
+                        2
+                    }
+                };
             }
             if sc.name == sub {
                 let mut acc = Acc::new(&sc.name, Tier::Quick, 0, known.clone());
